@@ -382,3 +382,136 @@ package eio
 //@   callsite (*clientSocket).close
 //@     requires asked && tn == name [C07.cli.superseded]
 //@     requires arg0 == (err == nil ? ReasonTransportClose : ReasonTransportError) [C06.eio.cli.transport.reason]
+
+// ---------------------------------------------------------------------------------------------
+// C14 (server watchdog). Ghost clock: Sleep(d) advances it by d and the timer case of a select armed with
+// time.After(d) is taken d after arming (assumption: ideal timers; scheduling slack is outside). Every round is:
+// sleep pingInterval, send one PING, wait for the pong token. The session is closed with ReasonPingTimeout only from
+// the timer case of that wait - exactly pingInterval + pingTimeout after the round began - and a round in which the
+// pong token arrived never closes.
+//@ func (*serverSocket).pingPong
+//@   opt safety off
+//@   requires s != nil && pingInterval >= 0 && pingTimeout >= 0
+//@   ghost clock int = 0
+//@   ghost roundstart int = 0
+//@   ghost slept int = 0
+//@   ghost pings int = 0
+//@   ghost armed int = 0
+//@   ghost armedfor int = 0
+//@   ghost lastcase int = 0 - 2
+//@   ghost closes int = 0
+//@   callsite Sleep
+//@     requires arg0 == pingInterval && slept == pings [C14.srv.sleep.interval]
+//@     update slept = slept + 1
+//@     update clock = clock + arg0
+//@   callsite (*serverSocket).Send skip
+//@     requires slept == pings + 1 && len(arg0) == 1 && arg0[0] != nil && arg0[0].Type == parser.PacketTypePing [C14.srv.ping.each.round]
+//@     update pings = pings + 1
+//@   callsite After
+//@     requires arg0 == pingTimeout && pings == slept && armed == pings - 1 [C14.srv.timer.value]
+//@     update armed = armed + 1
+//@     update armedfor = arg0
+//@   onselect 1
+//@     requires armed == pings && chan0 == s.pongChan [C14.srv.waits.for.pong]
+//@     update lastcase = case
+//@     update clock = clock + (case == 1 ? armedfor : 0)
+//@     update roundstart = (case == 1 ? roundstart : clock)
+//@   callsite (*serverSocket).onError skip
+//@   callsite (*serverSocket).close skip
+//@     requires arg0 == ReasonPingTimeout && lastcase == 1 && closes == 0 [C14.srv.close.only.on.timer]
+//@     requires clock - roundstart == pingInterval + pingTimeout [C14.srv.bound]
+//@     update closes = closes + 1
+//@   loop 0 invariant slept == pings && armed == pings && closes == 0 && lastcase != 1 && roundstart == clock [C14.srv.round.inv]
+//@   ensures lastcase == 1 ==> closes == 1 [C14.srv.timer.closes]
+//@   ensures lastcase != 1 ==> closes == 0 [C14.srv.live.never.closed]
+
+// Only a PONG feeds the watchdog.
+//@ func (*serverSocket).handlePacket
+//@   opt safety off
+//@   requires packet != nil
+//@   ghost pongs int = 0
+//@   callsite (*serverSocket).onPong skip
+//@     requires packet.Type == parser.PacketTypePong [C14.srv.pong.only]
+//@     update pongs = pongs + 1
+//@   callsite ServerTransport.Close skip
+//@     requires packet.Type == parser.PacketTypeClose
+//@   ensures packet.Type == parser.PacketTypePong ==> pongs == 1 [C14.srv.pong.counts]
+
+// The token is put without blocking (a full mailbox already proves liveness).
+//@ func (*serverSocket).onPong
+//@   opt safety off
+//@   ghost put int = 0
+//@   onselect 0
+//@     requires chan0 == s.pongChan [C14.srv.pong.token]
+//@     update put = put + 1
+//@   ensures put == 1 [C14.srv.pong.token.once]
+
+// C14 (client watchdog). The timer of every round is pingInterval + pingTimeout, re-armed by each ping token; the
+// session is closed with ReasonPingTimeout only from the timer case.
+//@ func (*clientSocket).handleTimeout
+//@   opt safety off
+//@   requires s != nil
+//@   ghost armed int = 0
+//@   ghost rounds int = 0
+//@   ghost lastcase int = 0 - 2
+//@   ghost closes int = 0
+//@   callsite After
+//@     requires arg0 == s.pingInterval + s.pingTimeout && armed == rounds [C14.cli.timer.value]
+//@     update armed = armed + 1
+//@   onselect 0
+//@     requires armed == rounds + 1 && chan0 == s.pingChan [C14.cli.waits.for.ping]
+//@     update rounds = rounds + 1
+//@     update lastcase = case
+//@   callsite (*clientSocket).close skip
+//@     requires arg0 == ReasonPingTimeout && lastcase == 1 && closes == 0 [C14.cli.close.only.on.timer]
+//@     update closes = closes + 1
+//@   loop 0 invariant armed == rounds && closes == 0 && lastcase != 1 [C14.cli.round.inv]
+//@   ensures lastcase == 1 ==> closes == 1 [C14.cli.timer.closes]
+//@   ensures lastcase != 1 ==> closes == 0 [C14.cli.live.never.closed]
+
+// A PING re-arms the client's watchdog (non-blocking token) and is answered by one PONG carrying the ping's data.
+//@ func (*clientSocket).handlePacket
+//@   opt safety off
+//@   requires packet != nil
+//@   ghost tokens int = 0
+//@   ghost pongs int = 0
+//@   ghost mkerr bool = false
+//@   onselect 0
+//@     requires packet.Type == parser.PacketTypePing && chan0 == s.pingChan [C14.cli.token.on.ping]
+//@     update tokens = tokens + 1
+//@   callsite NewPacket
+//@     requires arg0 == parser.PacketTypePong && arg2 == packet.Data [C14.cli.pong.echo]
+//@     updateafter mkerr = result1 != nil
+//@   callsite (*clientSocket).onError skip
+//@   callsite (*clientSocket).Send skip
+//@     requires packet.Type == parser.PacketTypePing && tokens == 1 && len(arg0) == 1 [C14.cli.pong.after.token]
+//@     update pongs = pongs + 1
+//@   callsite ClientTransport.Close skip
+//@     requires packet.Type == parser.PacketTypeClose
+//@   ensures packet.Type == parser.PacketTypePing ==> tokens == 1 && (mkerr || pongs == 1) [C14.cli.ping.handled]
+//@   ensures packet.Type != parser.PacketTypePing ==> tokens == 0 && pongs == 0 [C14.cli.only.ping]
+
+// The client runs with the interval and timeout the server announced, and its watchdog is started - in its own
+// goroutine, at once - whenever the connection was established.
+//@ func (*clientSocket).connect
+//@   opt safety off
+//@   requires s != nil && s.url != nil
+//@   ghost gpi int = 0
+//@   ghost gpt int = 0
+//@   ghost wd int = 0
+//@   callsite NewClientTransport skip
+//@   callsite Set skip
+//@   callsite ClientTransport.Handshake skip
+//@   callsite ClientTransport.Run go
+//@   callsite (*HandshakeResponse).GetPingInterval
+//@     updateafter gpi = result
+//@   callsite (*HandshakeResponse).GetPingTimeout
+//@     updateafter gpt = result
+//@   onstore pingInterval
+//@     requires value == gpi [C14.cli.uses.announced.interval]
+//@   onstore pingTimeout
+//@     requires value == gpt [C14.cli.uses.announced.timeout]
+//@   callsite (*clientSocket).handleTimeout go
+//@     update wd = wd + 1
+//@   ensures err == nil ==> wd == 1 [C14.cli.watchdog.started]
+//@   ensures err != nil ==> wd == 0 [C14.cli.watchdog.only.connected]
